@@ -25,6 +25,8 @@ def specs(ctx):
     s += [sp for sp in sysrun.specs_faults(ctx, [dict(kind='upload', src='seekable_close_true', size=2),
                                                  dict(kind='upload', src='seekable_close_true', size=10)], seeds=1, tag='closetrue')
           if sp.get('s3_fault')]
+    # a stage's pool refuses a task (no new worker thread can be started): the transfer must fail with that error
+    s += sysrun.specs_submit_fault(ctx, sysrun.KINDS[:: (1 if ctx.thorough() else 2)], seeds=1)
     if ctx.thorough():
         # pairs of faults in the small scenarios
         for ts in sysrun.KINDS[:8]:
